@@ -31,8 +31,15 @@ EMLNS = "https://eml.ecoinformatics.org/eml-2.2.0"
 URIS = ["urn:1", "urn:2", "urn:3", "http://x.org/y?a=1&b=2", "https://eml.ecoinformatics.org/eml-2.2.0"]
 
 _name_ascii = st.from_regex(r"[A-Za-z_][A-Za-z0-9._-]{0,6}", fullmatch=True).filter(lambda s: not s.lower().startswith("xml"))
-_name = st.one_of(_name_ascii, _name_ascii, st.sampled_from(["élan", "naïve", "名前", "_x", "a.b-c", "eml", "dataset", "para",
-                                                             "title", "Ωmega"]))
+def _eml_names():
+    from metapype.eml import rule as R
+    return sorted(n for n in R.node_mappings if n and n[0].isalpha() and all(c.isalnum() or c in "._-" for c in n))
+
+
+_name = st.one_of(_name_ascii, st.sampled_from(["élan", "naïve", "名前", "_x", "a.b-c", "eml", "dataset", "para", "title", "Ωmega"]),
+                  st.deferred(lambda: st.sampled_from(_eml_names())),   # exporters may special-case element names
+                  st.sampled_from(["literalLayout", "markdown", "para", "markup", "objectName", "attributeName", "section",
+                                   "metadata", "references", "description", "emphasis", "subscript", "superscript"]))
 _xml_char = st.characters(blacklist_categories=("Cs", "Cc"), blacklist_characters="￾￿")
 _special = st.sampled_from(["<", ">", "&", "\"", "'", "]]>", " ", "\t", "\n", "\xa0", "é", "\U0001F600", "&amp", "lt;", "a",
                             "<para>", "</para>", "&lt;", "&gt;", "&amp;", "--", "<!--", "?>", "{}", "x y", "  "])
